@@ -12,3 +12,4 @@ import Generated.LayoutSrc
 import Generated.LayoutSrcRun
 import Generated.UmapSrc
 import Generated.UmapSrcRun
+import Generated.UtilsSrc
